@@ -8,6 +8,34 @@ HERE = os.path.dirname(os.path.dirname(os.path.abspath(__file__)))
 
 # id -> (technique, level text, level note, design ref)
 CLAIMS = {
+    "C08": (
+        "abstract reachability over the tagger wiring of every shipped .ini (finite (activated, pending) state space, "
+        "exhaustive) with handler facts derived by effect inference over method closures; must-dataflow (typestate) over "
+        "send_event_time;send_out_state of every concrete handler",
+        "Decides for all event histories of all 19 shipped configurations (any pending tagger may commit next) that no "
+        "candidate of a handler that computes its time from positions/velocities survives a commit that writes a "
+        "velocity, snaps a unit across a cell of its cell system, or switches the motion mode it depends on -- the "
+        "property's 'no candidate survives after another event changed the motion of a unit it depends on' at tagger "
+        "granularity -- and that handlers only ever mutate an in-state stored for the current event. Float equality of "
+        "trajectories in concrete runs and harness-generated configurations are not decided.",
+        "Trusted: the static re-implementation of base/factory.py (jfsa/inifront.py); derived handler facts (a handler is "
+        "kinematics-sensitive iff send_event_time's closure reads .position/.velocity outside asserts/log calls); every "
+        "sensitive in-state contains the active unit.",
+        "DESIGN.md section 3, C08/C09"),
+    "C09": (
+        "abstract reachability over the tagger wiring of every shipped .ini (exhaustive); exact pool-demand computation "
+        "from factor files; linear (move-only) resource accounting and statement-order rules on TagActivator",
+        "Decides for all event histories of the 19 shipped configurations, at tagger granularity, that pending = fresh: "
+        "every committing tagger trashes itself, nothing is created twice, no deactivated tagger keeps events, every "
+        "activated tagger is pending after every commit, interaction taggers are re-created whenever the velocity is "
+        "handed over, every tagger is reachable; that each factor-map tagger owns at least as many handlers as its "
+        "factor file and the system composition can demand; and that TagActivator moves each handler exactly once "
+        "between its pools, in the order activate/deactivate < internal-state update < create. Multiset equality of "
+        "in-state tuples inside one tagger on concrete states is not decided.",
+        "Trusted: jfsa/inifront.py as a model of the factory; the leaf-mode / root-mode demand formula of jfsa/pools.py "
+        "(root mode iff the handler derives from CompositeObjectsLifting); cell-based taggers' pool sizes are left to "
+        "the runtime TagActivatorError.",
+        "DESIGN.md section 3, C08/C09"),
     "C14": (
         "exhaustive truth tables over the finite ordering domain (9 cells x 6 comparisons) by abstract evaluation of "
         "the comparison methods; magnitude-kind abstract interpretation of Time.__add__/from_float/__sub__/update; "
